@@ -741,7 +741,9 @@ def _prefix_to(stmts, site):
 
 def _bslice(stmts, needed, params):
     """statements of `stmts` (a straight-line prefix, `if`s included) the values named in `needed` depend on; `needed` is updated to
-    what must be known before `stmts`.  Parameters are inputs: an assignment to a parameter-named value is never followed."""
+    what must be known before `stmts`.  `params` are the SOURCE expressions that are inputs of the extracted function (the keys of the
+    substitution table, e.g. `segment.ivt_address`): their definitions are not followed.  A genuine local is always followed, also when
+    it happens to be called like a parameter (`app_len = align(len(config.app_image), 16)` must stay in the slice)."""
     kept = []
     for st in reversed(stmts):
         needed -= params
@@ -779,20 +781,20 @@ def _bslice(stmts, needed, params):
     return kept
 
 
-def slice_value(fn, site, value, params):
-    """`value` as computed at statement `site` of `fn`: the backward slice of the preceding statements + `return value`;
-    attribute-valued temporaries (`segment.csf_address = …`) become locals"""
+def slice_value(fn, site, value, inputs, subst=None):
+    """`value` as computed at statement `site` of the (unsubstituted) `fn`: the backward slice of the preceding statements +
+    `return value`; attribute-valued temporaries (`segment.csf_address = …`) become locals; `subst` is applied at the end"""
     prefix = _prefix_to(fn.body, site)
     if prefix is None:
         return None
-    params = set(params)
+    params = set(inputs)
     kept = _bslice(prefix, _uses(value) - params, params)
-    ren = {}
+    ren = dict(subst or {})
     for st in ast.walk(ast.Module(body=kept, type_ignores=[])):
         if isinstance(st, (ast.Assign, ast.AnnAssign, ast.AugAssign)):
             tgt = st.targets[0] if isinstance(st, ast.Assign) else st.target
             d = _dotted(tgt)
-            if d and "." in d:
+            if d and "." in d and d not in ren:
                 ren[d] = d.replace(".", "_")
     stmts = kept + [ast.Return(value=value)]
     if ren:
@@ -858,6 +860,7 @@ class _Desugar(ast.NodeTransformer):
          q, r = divmod(x, k)      ->  q = x // k; r = x % k        (through temporaries when x / k are impure or mention q / r)
          a, b = e1, e2            ->  _t0 = e1; _t1 = e2; a = _t0; b = _t1
          divmod(x, k)[0] / [1]    ->  x // k / x % k
+         import … (inside the function) -> dropped
        Anything else is left alone (py2lean then decides)."""
 
     def __init__(self):
@@ -913,8 +916,10 @@ class _Desugar(ast.NodeTransformer):
             if isinstance(stmts, list) and stmts and all(isinstance(x, ast.stmt) for x in stmts):
                 flat = []
                 for x in stmts:
+                    if isinstance(x, (ast.Import, ast.ImportFrom)):
+                        continue            # a function-level import has no effect on the value
                     flat += self._split(x)
-                setattr(node, field, flat)
+                setattr(node, field, flat or [ast.Pass()])
         return node
 
 
@@ -1048,8 +1053,9 @@ def gen_HabFuns():
     # returned `cls(…)`, the attribute of the segment object that is assigned, the keyword of ImageBlock(…), the bound of a slice …),
     # never by the name of a local or the position of a statement, and is extracted as the backward slice of the statements before
     # that site (temporaries, if/else around the assignment, renamed locals all end in the same value).
-    def prepared(rel, cls, fn_name, subst=SUBST, canon=None):
-        """deep copy of the method: desugared, segment / helper locals renamed to the names of the substitution table, substituted"""
+    def prepared(rel, cls, fn_name, subst=None, canon=None):
+        """deep copy of the method: desugared, segment / helper locals renamed to the names the substitution table uses
+        (and substituted when `subst` is given)"""
         f = cls_fun(rel, cls, fn_name)
         if f is None:
             return None
@@ -1066,10 +1072,11 @@ def gen_HabFuns():
                 ren[nm] = std
         if ren:
             _rename(f, ren)
-        f.body = [_Subst(subst).visit(st) for st in f.body]
+        if subst:
+            f.body = [_Subst(subst).visit(st) for st in f.body]
         return ast.fix_missing_locations(f)
 
-    def sliced(name, params, rel, cls, fn_name, pick, canon=None):
+    def sliced(name, params, rel, cls, fn_name, pick, canon=None, subst=SUBST):
         """pick(prepared method) -> (site statement, value expression) | None"""
         def b():
             f = prepared(rel, cls, fn_name, canon=canon)
@@ -1078,7 +1085,7 @@ def gen_HabFuns():
             got = pick(f)
             if not got or got[1] is None:
                 return None
-            stmts = slice_value(f, got[0], got[1], params)
+            stmts = slice_value(f, got[0], got[1], set(subst), subst)
             return None if stmts is None else _synth(name, params, stmts)
         return b
 
@@ -1115,15 +1122,9 @@ def gen_HabFuns():
     # `segment.ivt_address` is an input of the other pointers (substitution table), so its own definition is read at the assignment
     no_ivt = {k: v for k, v in SUBST.items() if k != "segment.ivt_address"}
 
-    def ivt_self():
-        f = prepared(HSEG, "IvtHabSegment", "load_from_config", subst=no_ivt)
-        got = at_assign("segment.ivt_address")(f) if f is not None else None
-        if not got:
-            return None
-        stmts = slice_value(f, got[0], got[1], ["start_address", "ivt_offset"])
-        return None if stmts is None else _synth("ivt_self", ["start_address", "ivt_offset"], stmts)
-
-    add("ivtSelfAddress", f"{HSEG}::IvtHabSegment.load_from_config (ivt_address)", ["start_address", "ivt_offset"], "Int", ivt_self)
+    add("ivtSelfAddress", f"{HSEG}::IvtHabSegment.load_from_config (ivt_address)", ["start_address", "ivt_offset"], "Int",
+        sliced("ivt_self", ["start_address", "ivt_offset"], HSEG, "IvtHabSegment", "load_from_config", at_assign("segment.ivt_address"),
+               subst=no_ivt))
     add("ivtBdtAddress", f"{HSEG}::IvtHabSegment.load_from_config (bdt_address)", ["ivt_address", "ivt_size"], "Int",
         sliced("ivt_bdt", ["ivt_address", "ivt_size"], HSEG, "IvtHabSegment", "load_from_config", at_assign("segment.bdt_address")))
     add("ivtDcdAddress", f"{HSEG}::IvtHabSegment.load_from_config (dcd_address)", ["ivt_address"], "Int",
@@ -1143,7 +1144,7 @@ def gen_HabFuns():
     def bdt_sel():
         """which segment class ends the image: 1 when the expression selects CsfHabSegment, 0 for AppHabSegment
         (`{0: App, 1: Csf}[sel]`, a list `[App, Csf][sel]`, or `Csf if cond else App`)"""
-        f = prepared(HSEG, "BdtHabSegment", "load_from_config", canon=END_SEG)
+        f = prepared(HSEG, "BdtHabSegment", "load_from_config", subst=SUBST, canon=END_SEG)
         if f is None:
             return None
 
@@ -1189,38 +1190,29 @@ def gen_HabFuns():
         sliced("app_off", ["initial_load_size", "ivt_offset"], HSEG, "AppHabSegment", "load_from_config", at_return(arg=OFFSET_ARG)))
 
     def app_al():
-        """the condition under which the application is padded to 16 bytes: the test guarding the `align_block(…)` call"""
+        """the condition under which the application is padded to 16 bytes: the test of the innermost `if` / conditional expression
+        guarding the `align_block(…)` call, with the statements it depends on"""
         f = prepared(HSEG, "AppHabSegment", "load_from_config")
         if f is None:
             return None
-
-        def guard(node, test):
-            for c in ast.iter_child_nodes(node):
-                if isinstance(c, ast.Call) and (_dotted(c.func) or "").split(".")[-1] == "align_block":
-                    return test
-                if isinstance(c, (ast.If, ast.IfExp)):
-                    for sub in ([c.body] if isinstance(c, ast.IfExp) else c.body):
-                        if isinstance(sub, ast.Call) and (_dotted(sub.func) or "").split(".")[-1] == "align_block":
-                            return c.test
-                        r = guard(sub, c.test)
-                        if r is not None:
-                            return r
-                    for sub in ([c.orelse] if isinstance(c, ast.IfExp) else c.orelse):
-                        neg = ast.UnaryOp(op=ast.Not(), operand=c.test)
-                        if isinstance(sub, ast.Call) and (_dotted(sub.func) or "").split(".")[-1] == "align_block":
-                            return neg
-                        r = guard(sub, neg)
-                        if r is not None:
-                            return r
-                    r = guard(c.test, test)
-                else:
-                    r = guard(c, test)
-                if r is not None:
-                    return r
-            return None
-
-        t = guard(f, None)
-        return None if t is None else _synth("app_al", ["flags"], [ast.Return(value=t)])
+        parent = {}
+        for n in ast.walk(f):
+            for c in ast.iter_child_nodes(n):
+                parent[id(c)] = n
+        calls = sorted((n for n in ast.walk(f) if isinstance(n, ast.Call) and (_dotted(n.func) or "").split(".")[-1] == "align_block"),
+                       key=lambda n: (n.lineno, n.col_offset))
+        for call in calls:
+            node, test = call, None
+            while id(node) in parent:
+                up = parent[id(node)]
+                if test is None and isinstance(up, (ast.If, ast.IfExp)) and node is not up.test:
+                    in_else = (node is up.orelse) if isinstance(up, ast.IfExp) else any(node is x for x in up.orelse)
+                    test = ast.UnaryOp(op=ast.Not(), operand=up.test) if in_else else up.test
+                if test is not None and isinstance(up, ast.stmt):
+                    stmts = slice_value(f, up, test, set(SUBST), SUBST)
+                    return None if stmts is None else _synth("app_al", ["flags"], stmts)
+                node = up
+        return None
 
     add("appAligned", f"{HSEG}::AppHabSegment.load_from_config (16-byte alignment condition)", ["flags"], "Bool", app_al)
 
